@@ -107,4 +107,7 @@ let () =
   register "backend_ok" (function
     | L [ _; fin; p ] ->
         "{\"r\":\"ok\",\"backend_ok\":" ^ (if backend_ok (as_pops fin) (as_program p) then "true" else "false") ^ "}"
-    | _ -> raise (Bad "backend_ok"))
+    | _ -> raise (Bad "backend_ok"));
+  register "finalize_ok" (function
+    | L [ _; rs ] -> "{\"r\":\"ok\",\"finalize_ok\":" ^ (if finalize_ok (as_pops rs) then "true" else "false") ^ "}"
+    | _ -> raise (Bad "finalize_ok"))
